@@ -656,6 +656,27 @@ fn text_cases(target: Target, seed_text: &str, visit: &mut Visit) -> bool {
 	if !v("one_huge_line", String::new(), &|| { let mut b = bytes.to_vec(); b.extend(std::iter::repeat(b'a').take(1 << 20)); b }, visit) {
 		return false;
 	}
+	// an element no reader knows (first field `x`), followed by a long run of deeper-indented lines that belong to it - at
+	// every indentation a section can start at, 100000 lines each (a reader that descends once per ignored line runs out of stack)
+	for depth in 0..4usize {
+		for lines in [2000usize, 100_000] {
+			if !v("unknown_element_with_many_sub_lines", format!("{depth}:{lines}"), &|| {
+				let mut b = bytes.to_vec();
+				if !b.ends_with(b"\n") {
+					b.push(b'\n');
+				}
+				b.extend(std::iter::repeat(b'\t').take(depth));
+				b.extend_from_slice(b"x\tunknown\telement\n");
+				for i in 0..lines {
+					b.extend(std::iter::repeat(b'\t').take(depth + 1 + i % 2));
+					b.extend_from_slice(b"y\tsub\n");
+				}
+				b
+			}, visit) {
+				return false;
+			}
+		}
+	}
 	if !v("many_tabs_line", String::new(), &|| { let mut b = bytes.to_vec(); b.extend(std::iter::repeat(b'\t').take(100_000)); b.extend_from_slice(b"c\ta\tb\n"); b }, visit) {
 		return false;
 	}
